@@ -271,6 +271,16 @@ struct TableProvider : public resolvo::DependencyProvider {
         for (auto &e : n.excluded) {
             c.excluded.push_back(resolvo::ExcludedSolvable{SolvableId{e.first}, StringId{e.second}});
         }
+        if (mode <= 1) {
+            // "the favored / locked solvable is that element of the list I return": the pointers refer
+            // into the storage of the returned candidates vector, which stays alive as long as the
+            // returned object does
+            for (size_t k = 0; k < c.candidates.size(); ++k) {
+                const SolvableId *p = c.candidates.cbegin() + k;
+                if (n.favored && p->id == *n.favored) c.favored = p;
+                if (n.locked && p->id == *n.locked) c.locked = p;
+            }
+        }
         return c;
     }
     void sort_candidates(resolvo::Slice<SolvableId> solvables) override {
@@ -783,6 +793,14 @@ static void run_strings() {
                     resolvo::String x(v1);
                     x = x.data();
                     ok = ok && std::string(std::string_view(x)) == v1;
+                }
+                {
+                    // a default-constructed string_view has a null data pointer and length 0
+                    resolvo::String from_null(std::string_view{});
+                    resolvo::String assigned(v1);
+                    assigned = std::string_view{};
+                    ok = ok && std::string_view(from_null).empty() && std::string_view(assigned).empty() &&
+                         std::strlen(from_null.data()) == 0;
                 }
                 resolvo::Vector<resolvo::String> vec{a, b};
                 vec.push_back(e);
